@@ -1204,7 +1204,7 @@ func (r *runner) generate(g *gen) {
 	}
 
 	// ---- structured descriptions, variations, near misses ----
-	ndesc := cfg.Pick(36, 500)
+	ndesc := cfg.Pick(36, 400)
 	for i := 0; i < ndesc; i++ {
 		d := g.desc(1000 + i)
 		line0, o0 := r.addDesc(d, nil, RVar{}, "")
